@@ -232,7 +232,42 @@ def build(unit_path, repo, cfgs=(), drop_disturbed=False):
     b = Built()
     b.drop_disturbed = drop_disturbed
     _build_file(unit_path, repo, cfgs, b, depth=0)
+    _auto_consts(b, repo)
     return b
+
+
+def _auto_consts(b, repo):
+    """module-level `const` / `static` items of the source files that the extracted code names but no overlay section
+    extracts are appended verbatim (a refactoring that introduces a named constant must not make the unit unbuildable)"""
+    files = sorted(set(it['file'] for it in b.items if not it.get('lost')))
+    text_now = '\n'.join(b.lines)
+    for relfile in files:
+        fpath = os.path.join(repo, relfile)
+        if not os.path.exists(fpath):
+            continue
+        text = open(fpath).read()
+        try:
+            items = rustscan.scan_items(text)
+        except Exception:
+            continue
+        for it in items:
+            mm = re.match(r'(?:pub(?:\([^)]*\))?\s+)?(const|static)\s+(?:mut\s+)?([A-Z_][A-Z0-9_]*)\b', it.header)
+            if not mm:
+                continue
+            name = mm.group(2)
+            if not re.search(r'\b%s\b' % name, text_now) or re.search(r'\b(const|static)\s+(mut\s+)?%s\b' % name, text_now):
+                continue
+            first = rustscan.line_of(text, it.start)
+            seg = text[it.start:it.end].split('\n')
+            b.lines.append('verus! {   // auto-included module-level item named by extracted code')
+            b.origin.append(('contract', 'tools/vxbuild.py', 0))
+            for k, l in enumerate(seg):
+                b.lines.append(l)
+                b.origin.append(('repo', relfile, first + k))
+            b.lines.append('}')
+            b.origin.append(('contract', 'tools/vxbuild.py', 0))
+            b.dropped.append("auto-included module-level `%s %s` (%s:%d), named by extracted code and not part of any overlay section" % (mm.group(1), name, relfile, first))
+            text_now = '\n'.join(b.lines)
 
 
 VIEW_TAG = re.compile(r'^(\s*/\*@\*/\s*)/\*([SL])\*/ ?')
